@@ -6,9 +6,11 @@
 -/
 import Props.C11
 import Props.Family
+import Gen.Guards.Closable
 import Gen.Guards.Det
 import Gen.Guards.FillersOK
 import Gen.Guards.LabelsOK
+import Gen.Guards.LeafOk
 import Gen.Guards.TextStableC
 import Gen.Guards.WrapOK
 namespace PM.Family.C11
@@ -152,5 +154,66 @@ theorem insertInline_emits_wf (S : Schema) (hS : S ∈ familySchemas) (doc : Nod
     (∀ F T G1 G2 sl' ins b, st = .replaceAround F T G1 G2 sl' ins b → aroundShape F T G1 G2 sl' ins = true) :=
   PM.C11.insertInline_emits_wf S (family_det _ hS) (family_fillersOK _ hS) (family_wrapOK _ hS) doc f t sl hsl
     hv hattrs hft st h
+
+/-- `PM.C11.delete_emits_valid_payload` with its schema guards discharged for the bundled schema family -/
+theorem delete_emits_valid_payload (S : Schema) (hS : S ∈ familySchemas) (doc : Node) (f t : Nat)
+    (hv : C01.Valid S doc) (hattrs : S.nodeAttrsOK doc = true) (st : Step)
+    (h : replaceStep S doc f t Slice.empty = .ok (some st)) :
+    ∃ sl', st.sliceOf = some sl' ∧ openValid S sl'.openStart sl'.openEnd sl'.content = true :=
+  PM.C11.delete_emits_valid_payload S (family_det _ hS) (family_leafOk _ hS) doc f t hv hattrs st h
+
+/-- `PM.C11.deleteRange_emits_valid_payload` with its schema guards discharged for the bundled schema family -/
+theorem deleteRange_emits_valid_payload (S : Schema) (hS : S ∈ familySchemas) (doc : Node) (f t : Nat)
+    (hv : C01.Valid S doc) (hattrs : S.nodeAttrsOK doc = true) (st : Step)
+    (h : deleteRangeStep S doc f t = .ok (some st)) :
+    ∃ sl', st.sliceOf = some sl' ∧ openValid S sl'.openStart sl'.openEnd sl'.content = true :=
+  PM.C11.deleteRange_emits_valid_payload S (family_det _ hS) (family_leafOk _ hS) doc f t hv hattrs st h
+
+/-- `PM.C11.delete_emits_payloadValid` with its schema guards discharged for the bundled schema family -/
+theorem delete_emits_payloadValid (S : Schema) (hS : S ∈ familySchemas) (doc : Node) (f t : Nat)
+    (hv : C01.Valid S doc) (hattrs : S.nodeAttrsOK doc = true) (st : Step)
+    (h : replaceStep S doc f t Slice.empty = .ok (some st)) :
+    C01.PayloadValid S doc st :=
+  PM.C11.delete_emits_payloadValid S (family_det _ hS) (family_leafOk _ hS) doc f t hv hattrs st h
+
+/-- `PM.C11.deleteRange_emits_payloadValid` with its schema guards discharged for the bundled schema family -/
+theorem deleteRange_emits_payloadValid (S : Schema) (hS : S ∈ familySchemas) (doc : Node) (f t : Nat)
+    (hv : C01.Valid S doc) (hattrs : S.nodeAttrsOK doc = true) (st : Step)
+    (h : deleteRangeStep S doc f t = .ok (some st)) :
+    C01.PayloadValid S doc st :=
+  PM.C11.deleteRange_emits_payloadValid S (family_det _ hS) (family_leafOk _ hS) doc f t hv hattrs st h
+
+/-- `PM.C11.insertInline_emits_valid_payload` with its schema guards discharged for the bundled schema family -/
+theorem insertInline_emits_valid_payload (S : Schema) (hS : S ∈ domFamilySchemas) (doc : Node) (f t : Nat)
+    (sl : Slice) (hsl : sl.inlineLeaves S = true) (hslv : sl.closedValid S = true) (hv : C01.Valid S doc)
+    (hattrs : S.nodeAttrsOK doc = true) (st : Step) (h : replaceStep S doc f t sl = .ok (some st)) :
+    ∃ sl', st.sliceOf = some sl' ∧ openValid S sl'.openStart sl'.openEnd sl'.content = true :=
+  PM.C11.insertInline_emits_valid_payload S (family_det _ (domFamily_sub _ hS))
+    (family_fillersOK _ (domFamily_sub _ hS)) (family_wrapOK _ (domFamily_sub _ hS))
+    (family_labelsOK _ (domFamily_sub _ hS)) (family_leafOk _ (domFamily_sub _ hS))
+    (family_textStableC _ (domFamily_sub _ hS)) (family_closable _ (domFamily_sub _ hS)) doc f t sl hsl hslv hv
+    hattrs st h
+
+/-- `PM.C11.payloadInv_step` with its schema guards discharged for the bundled schema family -/
+theorem payloadInv_step (S : Schema) (hS : S ∈ domFamilySchemas) (D g : Nat) (st : FitState)
+    (inv : FitLoopInv S D st) (hv : VInv S D g st.frontier st.placed)
+    (hu : ∀ n ∈ st.unplaced.content, S.checkNode n = true) :
+    ∃ st' g', fitStep S st = .ok st' ∧ FitLoopInv S D st' ∧ VInv S D g' st'.frontier st'.placed ∧
+    (∀ n ∈ st'.unplaced.content, S.checkNode n = true) :=
+  PM.C11.payloadInv_step S (family_det _ (domFamily_sub _ hS)) (family_fillersOK _ (domFamily_sub _ hS))
+    (family_wrapOK _ (domFamily_sub _ hS)) (family_labelsOK _ (domFamily_sub _ hS))
+    (family_leafOk _ (domFamily_sub _ hS)) (family_textStableC _ (domFamily_sub _ hS))
+    (family_closable _ (domFamily_sub _ hS)) D g st inv hv hu
+
+/-- `PM.C11.fit_emits_valid_payload_of_inv` with its schema guards discharged for the bundled schema family -/
+theorem fit_emits_valid_payload_of_inv (S : Schema) (hS : S ∈ domFamilySchemas) (doc : Node) (f t : Nat)
+    (sl : Slice) (hslv : openValid S sl.openStart sl.openEnd sl.content = true)
+    (hattrs : S.nodeAttrsOK doc = true) (st : Step) (h : replaceStep S doc f t sl = .ok (some st))
+    (hend : fitEndInv S doc f t sl ≠ some false) :
+    ∃ sl', st.sliceOf = some sl' ∧ openValid S sl'.openStart sl'.openEnd sl'.content = true :=
+  PM.C11.fit_emits_valid_payload_of_inv S (family_det _ (domFamily_sub _ hS))
+    (family_fillersOK _ (domFamily_sub _ hS)) (family_leafOk _ (domFamily_sub _ hS))
+    (family_textStableC _ (domFamily_sub _ hS)) (family_closable _ (domFamily_sub _ hS)) doc f t sl hslv hattrs
+    st h hend
 
 end PM.Family.C11
